@@ -337,7 +337,7 @@ pub fn checks(tier: Tier) -> Vec<Check> {
         Check {
             name: "C13.batch-large".into(),
             strategy: batch(vec![94, 95, 96, 190, 250, 400]),
-            cases: tier.scale(24, 15),
+            cases: tier.scale(60, 10),
             exec: Box::new(crate::ops::exec),
             oracle: Box::new(crate::mops::oracle),
             classify: Box::new(classify),
